@@ -55,6 +55,18 @@ func (e *emitter) arg(expr string) string {
 	return fmt.Sprintf("rt.Arg(h, %d, %s)", s, expr)
 }
 
+// argFn wraps a function argument. A method value `rv.M` is, for every second program, wrapped at
+// its receiver (`rt.Arg(h, k, rv).M`): the receiver of a method value is a user expression that Go
+// evaluates when the method value is evaluated, so it too must be hoisted into the prologue.
+func (e *emitter) argFn(fnx string) string {
+	if e.p.Wrap && strings.HasPrefix(fnx, "rv.") && e.p.PID%2 == 0 {
+		s := e.slot
+		e.slot++
+		return fmt.Sprintf("rt.Arg(h, %d, rv).%s", s, fnx[3:])
+	}
+	return e.arg(fnx)
+}
+
 // tyx spells a type in the program file / companion file.
 func (e *emitter) tyx(id int) string { return TypeExpr(id, e.tyAlias+".", "ext.") }
 
@@ -531,7 +543,7 @@ func Emit(p *ps.Program, pkg, fnsPkg string) *Files {
 			fnx := e.simpleFn(t.Form, "PTask", "PTask", t.K, t.Ctx, t.Err)
 			e.w("\t\tcff.Task(")
 			e.lineK[e.line] = t.K
-			e.w("%s", e.arg(fnx))
+			e.w("%s", e.argFn(fnx))
 			if t.Instr {
 				e.expName[t.K] = fmt.Sprintf("t%d", t.K)
 				e.w(", cff.Instrument(%s)", e.arg(fmt.Sprintf("%q", e.expName[t.K])))
@@ -542,19 +554,19 @@ func Emit(p *ps.Program, pkg, fnsPkg string) *Files {
 			e.w("\t\tcff.Tasks(\n")
 			for _, k := range g.Ks {
 				t := p.PTasks[k]
-				e.w("\t\t\t%s,\n", e.arg(e.simpleFn(t.Form, "PTask", "PTask", t.K, t.Ctx, t.Err)))
+				e.w("\t\t\t%s,\n", e.argFn(e.simpleFn(t.Form, "PTask", "PTask", t.K, t.Ctx, t.Err)))
 			}
 			e.w("\t\t),\n")
 		case "slice":
 			s := p.Slices[id]
-			e.w("\t\tcff.Slice(%s, %s", e.arg(e.sliceFn(s)), e.arg(e.sliceExpr(s)))
+			e.w("\t\tcff.Slice(%s, %s", e.argFn(e.sliceFn(s)), e.arg(e.sliceExpr(s)))
 			if s.End {
 				e.w(", cff.SliceEnd(%s)", e.arg(e.simpleFn("lit", "SliceEnd", "SliceEnd", s.S, s.EndCtx, s.EndErr)))
 			}
 			e.w("),\n")
 		case "map":
 			m := p.Maps[id]
-			e.w("\t\tcff.Map(%s, %s", e.arg(e.mapFn(m)), e.arg(e.mapExpr(m)))
+			e.w("\t\tcff.Map(%s, %s", e.argFn(e.mapFn(m)), e.arg(e.mapExpr(m)))
 			if m.End {
 				e.w(", cff.MapEnd(%s)", e.arg(e.simpleFn("lit", "MapEnd", "MapEnd", m.M, m.EndCtx, m.EndErr)))
 			}
@@ -687,7 +699,7 @@ func (e *emitter) emitFlowTask(t *ps.Task, file string) {
 	fnx := e.flowTaskFn(t)
 	e.w("\t\tcff.Task(")
 	e.lineK[e.line] = t.K
-	e.w("%s", e.arg(fnx))
+	e.w("%s", e.argFn(fnx))
 	if t.Pred {
 		e.w(",\n\t\t\tcff.Predicate(%s)", e.arg(e.predFn(t)))
 	}
